@@ -232,6 +232,10 @@ def run(ctx):
                 if kind == "flatten":
                     cs = upd.calls_to(r"<%s%s as %sFromArgMatches>::update_from_arg_matches_mut$" % (re.escape(C), spec["ty"], re.escape(D)))
                     res.check(len(cs) == 1 and expr(upd, cs[0].args[0]) == "self.%s" % f, "R15.1", "update|%s|flatten" % key, upd.where(), "update delegates to the flattened struct in place", "update of flattened %s does not delegate in place" % key)
+                    for c_ in cs:
+                        bg = [g for g in guard_strs(upd, c_.bb) if re.match(r"^[TF]:", g)]
+                        res.check(not bg, "R15.1", "update|%s|flatten-unconditional" % key, c_.where(), "the flattened struct is updated on every path",
+                                  "update_from_arg_matches of %s updates the flattened field `%s` only under %s: when that test is false (e.g. the inner struct's group is empty because it flattens another struct, or only its subcommand was given) the new values are silently not applied" % (st, f, bg))
                 continue
             writes = []
             for i, j, s in upd.stmts():
